@@ -1,6 +1,6 @@
 """C15 — client reads are authenticated against the requested address."""
 from cfg import cfg_of
-from flow import Taint, callee_matches, op_local, prep
+from flow import Taint, callee_matches, op_local, prep, field_reads
 from rules import CallGuard, CallSink, CmpGuard, RetSink, P, PL
 from props.C04 import call_results
 
@@ -105,33 +105,96 @@ def run(R):
             R.viol("C15.decrypt", "decrypt-source", "fetch_and_decrypt_vault decrypts a scratchpad that is not the one returned by get_vault_from_network", fd, fd.lines[0])
         R.inst("C15.decrypt", "K6 flows-to", "decrypt_data is applied to the authenticated pad", len(dec), ok)
     # (4) is_valid
-    iv = R.body("C15.is_valid", PAD + "::is_valid")
-    if iv is not None:
-        names = {c["ncallee"] for c in iv.calls}
-        need = {"blsttc::PublicKey::verify": "verifies a BLS signature", PAD + "::owner": "with the owner's key",
-                PAD + "::encrypted_data_hash": "over the data hash"}
-        ok = all(k in names for k in need)
-        for k, w in need.items():
-            if k not in names:
-                R.viol("C15.is_valid", "missing:%s" % k, "Scratchpad::is_valid no longer %s (%s)" % (w, k), iv, iv.lines[0])
-        # counter is part of the signed bytes
-        prep(iv)
-        ta = Taint(iv, through="all")
-        cnt = set()
-        for b in iv.blocks:
-            for s in b["stmts"]:
-                rv = s["rv"]
-                p = rv["a"][1] if rv["k"] == "use" and rv["a"][0] in ("cp", "mv") else rv.get("p") if rv["k"] == "ref" else None
-                if p and ".counter" in p[1:]:
-                    cnt.add(s["d"][0])
-        tc = ta.closure(cnt)
-        ver = [b for b in iv.blocks if b["term"]["k"] == "call" and callee_matches(b["term"], ["blsttc::PublicKey::verify"])]
-        ok2 = bool(ver) and all(any(op_local(a) in tc for a in b["term"]["args"]) for b in ver)
-        if not ok2:
-            R.viol("C15.is_valid", "counter-unsigned", "the counter does not flow into the bytes verified by Scratchpad::is_valid", iv, iv.lines[0])
-        # no signature ⇒ false
-        from rules import RetSink as RS
-        R.inst("C15.is_valid", "K6 flows-to", "is_valid: owner().verify(signature, counter ‖ data hash)", len(ver), ok and ok2)
+    is_valid_rules(R, "C15")
+
+
+def is_valid_rules(R, pfx):
+    """Scratchpad::is_valid: true only with a signature present, verified with the owner's key over counter ‖ data hash.
+    Accepts the `if let Some(sig) = &self.signature { verify } else { false }` form and Option-combinator forms."""
+    from rules import FieldOptGuard, AggSink
+    F = R.F
+    iv = R.body(pfx + ".is_valid", PAD + "::is_valid")
+    if iv is None:
+        return
+    prep(iv)
+    VER = "blsttc::PublicKey::verify"
+    holders = [b for b in F.item(PAD + "::is_valid") if any(c["ncallee"] == VER for c in b.calls)]
+    if not holders:
+        R.viol(pfx + ".is_valid", "missing:%s" % VER, "Scratchpad::is_valid no longer verifies a BLS signature", iv, iv.lines[0])
+        R.inst(pfx + ".is_valid", "K6 flows-to", "is_valid: owner().verify(signature, counter ‖ data hash)", 0, False)
+        return
+    vb = holders[0]
+    prep(vb)
+    names = {c["ncallee"] for b in F.item(PAD + "::is_valid") for c in b.calls}
+    ok = True
+    for k, w in ((PAD + "::owner", "with the owner's key"), (PAD + "::encrypted_data_hash", "over the data hash")):
+        if k not in names:
+            ok = False
+            R.viol(pfx + ".is_valid", "missing:%s" % k, "Scratchpad::is_valid no longer verifies %s (%s)" % (w, k), vb, vb.lines[0])
+    ver = [b for b in vb.blocks if b["term"]["k"] == "call" and callee_matches(b["term"], [VER])]
+
+    def derived_from(field_or_call):
+        """locals of vb derived from a field read / call result, directly or through a value the parent computed and the closure captured"""
+        ta = Taint(vb, through="all")
+        seeds = {d for d, r, p in field_reads(vb, field_or_call)} if not field_or_call.startswith("ant_") else call_results([field_or_call])(vb)
+        out = ta.closure(seeds)
+        if vb is not iv:
+            tp = Taint(iv, through="all")
+            pseeds = {d for d, r, p in field_reads(iv, field_or_call)} if not field_or_call.startswith("ant_") else call_results([field_or_call])(iv)
+            pt = tp.closure(pseeds)
+            for blk in iv.blocks:
+                for st in blk["stmts"]:
+                    if st["rv"]["k"] == "agg" and st["rv"]["ak"] == "closure" and st["rv"]["adt"] == vb.path:
+                        for k, o in enumerate(st["rv"]["ops"]):
+                            if op_local(o) in pt:
+                                caps = {s2["d"][0] for b2 in vb.blocks for s2 in b2["stmts"] if s2["rv"]["k"] in ("use", "ref") and
+                                        ((s2["rv"]["a"][1] if s2["rv"]["k"] == "use" and s2["rv"]["a"][0] in ("cp", "mv") else s2["rv"].get("p")) or [None, None])[:3][1:2] == ["*"] and
+                                        ".upv%d" % k in ((s2["rv"]["a"][1] if s2["rv"]["k"] == "use" and s2["rv"]["a"][0] in ("cp", "mv") else s2["rv"].get("p")) or [])}
+                                caps |= {s2["d"][0] for b2 in vb.blocks for s2 in b2["stmts"] if s2["rv"]["k"] in ("use", "ref") and
+                                         ".upv%d" % k in ((s2["rv"]["a"][1] if s2["rv"]["k"] == "use" and s2["rv"]["a"][0] in ("cp", "mv") else s2["rv"].get("p")) or [])}
+                                out |= ta.closure(caps)
+        return out
+    if not all(any(op_local(a) in derived_from("counter") for a in b["term"]["args"]) for b in ver):
+        ok = False
+        R.viol(pfx + ".is_valid", "counter-unsigned", "the counter does not flow into the bytes verified by Scratchpad::is_valid", vb, vb.lines[0])
+    if not all(any(op_local(a) in derived_from(PAD + "::encrypted_data_hash") for a in b["term"]["args"]) for b in ver):
+        ok = False
+        R.viol(pfx + ".is_valid", "hash-unsigned", "the data hash does not flow into the bytes verified by Scratchpad::is_valid", vb, vb.lines[0])
+    if not all(op_local(b["term"]["args"][0]) in derived_from(PAD + "::owner") for b in ver):
+        ok = False
+        R.viol(pfx + ".is_valid", "verify-key", "the signature is not verified with the scratchpad owner's key", vb, vb.lines[0])
+    R.inst(pfx + ".is_valid", "K6 flows-to", "is_valid: owner().verify(signature, counter ‖ data hash)", len(ver), ok)
+    # no signature ⇒ false
+    okn = False
+    why = None
+    if vb is iv:
+        # match form: the verdict is produced only on the Some side of the signature field
+        g = cfg_of(iv)
+        gd = FieldOptGuard("signature", ("Some",), "signature present")
+        n_, acc, rej = gd.edges(iv)
+        trues = set(b["id"] for b in ver) | set(RetSink("true").blocks(iv))
+        okn = bool(acc) and bool(rej) and all(not (g.reach((d,)) & trues) for _, d in rej)
+        why = "match on self.signature"
+    else:
+        comb = [c for c in iv.calls if (c["ncallee"] or "").startswith("core::option::Option::") and not (c["ncallee"] or "").endswith(("as_ref", "as_deref", "as_mut"))]
+        kinds = [c["ncallee"].split("::")[-1] for c in comb]
+        why = "Option::" + ",".join(kinds)
+        good = {"is_some_and"}
+        if kinds and all(k in good for k in kinds):
+            okn = True
+        elif kinds == ["map_or"]:
+            # map_or(default, f): default must be the literal false
+            okn = any(k[0] == 0 and k[1] == "false" for c in comb for k in c["consts"])
+        elif set(kinds) <= {"map", "unwrap_or_default"} and "map" in kinds:
+            okn = True
+        elif set(kinds) <= {"map", "unwrap_or"} and "map" in kinds:
+            okn = any(k[1] == "false" for c in comb if c["ncallee"].endswith("unwrap_or") for k in c["consts"])
+        # the closure's value is the verify verdict
+        cl_ok = any(b["term"]["k"] == "call" and callee_matches(b["term"], [VER]) and (b["term"]["d"] == [0] or 0 in Taint(vb).closure({b["term"]["d"][0]})) for b in vb.blocks)
+        okn = okn and cl_ok
+    if not okn:
+        R.viol(pfx + ".is_valid.unsigned", "unsigned-valid", "Scratchpad::is_valid can return true for a scratchpad without a signature (%s)" % why, iv, iv.lines[0])
+    R.inst(pfx + ".is_valid.unsigned", "K4r reject-edge", "no signature ⇒ is_valid() is false", 1, okn, {"form": why})
 
 
 def _upvar_reads(body, name):
